@@ -26,7 +26,8 @@ pub(crate) fn tuple(attr: &StructAttr, ts_name: Expr, fields: &FieldsUnnamed) ->
         inline: quote! {
             format!(
                 "[{}]",
-                [#(#formatted_fields),*].join(", ")
+                // typed, since there may be no fields left after `#[ts(skip)]`
+                <[String]>::join(&[#(#formatted_fields),*], ", ")
             )
         },
         inline_flattened: None,
